@@ -115,14 +115,15 @@ def scanFill (r : Recs) (base instr : Nat) : Frame := scanFillWith (scanPsize r)
 def RDisjoint (r s : Rng) : Prop := r.hi < s.lo ∨ s.hi < r.lo
 
 /-- "files whose records do not overlap": valid FUNC ranges pairwise disjoint; within every FUNC
-    valid line ranges pairwise disjoint and INLINE ranges of equal depth pairwise disjoint as
-    half-open intervals `[addr, addr+size)`. (Pairs = two different positions in the file.) -/
+    valid line ranges pairwise disjoint and non-empty INLINE ranges of equal depth pairwise disjoint
+    as half-open intervals `[addr, addr+size)`. Empty ranges (size 0) overlap nothing; the parser
+    drops them. (Pairs = two different positions in the file.) -/
 structure NonOverlapping (r : Recs) : Prop where
   funcs : r.funcs.Pairwise fun f g => ∀ rf rg, mkRange f.addr f.size = some rf →
       mkRange g.addr g.size = some rg → RDisjoint rf rg
   lines : ∀ f ∈ r.funcs, f.lines.Pairwise fun l m => ∀ rl rm,
       mkRangeLine l.addr l.size = some rl → mkRangeLine m.addr m.size = some rm → RDisjoint rl rm
-  inls : ∀ f ∈ r.funcs, f.inls.Pairwise fun x y => x.depth = y.depth →
+  inls : ∀ f ∈ r.funcs, f.inls.Pairwise fun x y => x.depth = y.depth → 0 < x.size → 0 < y.size →
       x.addr + x.size ≤ y.addr ∨ y.addr + y.size ≤ x.addr
 
 /-! ## general facts -/
@@ -481,7 +482,7 @@ theorem inlineeAt_complete (S : List Inl) (hsorted : S.Pairwise fun x y => inlLe
   rw [if_neg (by omega), if_neg (by omega), if_pos (by omega)]
 
 theorem inlineeAt_scan {f : Func}
-    (hpw : f.inls.Pairwise fun x y => x.depth = y.depth →
+    (hpw : f.inls.Pairwise fun x y => x.depth = y.depth → 0 < x.size → 0 < y.size →
       x.addr + x.size ≤ y.addr ∨ y.addr + y.size ≤ x.addr) (d a : Nat) :
     inlineeAt (finOf f).inls d a = .ok (scanInl f d a) := by
   cases hs : scanInl f d a with
@@ -493,7 +494,7 @@ theorem inlineeAt_scan {f : Func}
       exfalso
       obtain ⟨hm, hd, h1, h2, h3⟩ := inlineeAt_sound ho
       unfold scanInl at hs
-      have := List.find?_eq_none.mp hs x (List.mem_mergeSort.mp hm)
+      have := List.find?_eq_none.mp hs x (List.mem_filter.mp (List.mem_mergeSort.mp hm)).1
       apply this
       simp only [decide_eq_true_eq]
       exact ⟨hd, h3, h1, h2⟩
@@ -501,13 +502,23 @@ theorem inlineeAt_scan {f : Func}
     unfold scanInl at hs
     have hm : x ∈ f.inls := List.mem_of_find?_eq_some hs
     have hp : x.depth = d ∧ x.Covers a := by simpa using List.find?_some hs
+    have hpos : 0 < x.size := by obtain ⟨_, _, h2, h3⟩ := hp; omega
+    -- among the non-empty ranges the hypothesis is plain disjointness
+    have hpw' : (f.inls.filter fun x => x.size > 0).Pairwise fun x y => x.depth = y.depth →
+        x.addr + x.size ≤ y.addr ∨ y.addr + y.size ≤ x.addr := by
+      refine List.Pairwise.imp_of_mem ?_ (hpw.filter _)
+      intro x y hx hy hxy hd
+      have hx' := (List.mem_filter.mp hx).2
+      have hy' := (List.mem_filter.mp hy).2
+      simp only [gt_iff_lt, decide_eq_true_eq] at hx' hy'
+      exact hxy hd hx' hy'
     apply inlineeAt_complete
     · exact List.pairwise_mergeSort inlLe_trans inlLe_total _
-    · refine (List.Perm.pairwise_iff ?_ (List.mergeSort_perm _ _)).mpr hpw
+    · refine (List.Perm.pairwise_iff ?_ (List.mergeSort_perm _ _)).mpr hpw'
       intro x y hxy he
       have := hxy he.symm
       omega
-    · exact List.mem_mergeSort.mpr hm
+    · exact List.mem_mergeSort.mpr (List.mem_filter.mpr ⟨hm, by simpa using hpos⟩)
     · exact hp.1
     · exact hp.2
 
@@ -521,18 +532,21 @@ theorem lastInline_scan {r : Recs} {sf : SymFile} (B : Built r sf) {f : Func}
   rw [lineAt_scan hl, B.files, B.origins]
   rfl
 
+/-- whatever the model's loop returns (with whatever fuel it was given) is what the scan's loop
+    returns with that much fuel or more -/
 theorem inlineLoop_scan {r : Recs} {sf : SymFile} (B : Built r sf) {f : Func}
     (hl : f.lines.Pairwise fun l m => ∀ rl rm, mkRangeLine l.addr l.size = some rl →
       mkRangeLine m.addr m.size = some rm → RDisjoint rl rm)
-    (hi : f.inls.Pairwise fun x y => x.depth = y.depth →
+    (hi : f.inls.Pairwise fun x y => x.depth = y.depth → 0 < x.size → 0 < y.size →
       x.addr + x.size ≤ y.addr ∨ y.addr + y.size ≤ x.addr) (a : Nat) :
     ∀ fuel d origin inl, inlineLoop sf (finOf f) a fuel d origin = some (.ok inl) →
-      inl = scanLoop r f a fuel d origin := by
+      ∀ k, inl = scanLoop r f a (fuel + k) d origin := by
   intro fuel
   induction fuel with
   | zero => intro d origin inl h; simp [inlineLoop] at h
   | succ fuel ih =>
-    intro d origin inl h
+    intro d origin inl h k
+    rw [show fuel + 1 + k = (fuel + k) + 1 by omega]
     simp only [inlineLoop, inlineeAt_scan hi] at h
     split at h
     · cases h
@@ -551,7 +565,7 @@ theorem inlineLoop_scan {r : Recs} {sf : SymFile} (B : Built r sf) {f : Func}
         · cases h
         · rename_i rest hrest
           simp only [Option.some.injEq, Outcome.ok.injEq] at h
-          rw [← h, ih _ _ _ hrest, B.files, B.origins]
+          rw [← h, ih _ _ _ hrest k, B.files, B.origins]
           rfl
 
 /-! ## P5: the nearest preceding PUBLIC by a single pass -/
